@@ -385,6 +385,7 @@ func (db *SpanFile) RemoveRecord(recordID string) error {
 	if err != nil {
 		return err
 	}
+	verifPoint("markFreed", db)
 
 	// Add the span to the free list
 	db.addFreeSpan(offset, length)
@@ -455,6 +456,7 @@ func (db *SpanFile) WriteRecord(recordID string, dataStreams []DataStream) error
 	if err != nil {
 		return err
 	}
+	verifPoint("writeAt", db)
 
 	if oldOffset, exists := db.index[recordID]; exists {
 		oldLength, err := db.getSpanLength(int(oldOffset))
@@ -466,6 +468,7 @@ func (db *SpanFile) WriteRecord(recordID string, dataStreams []DataStream) error
 		if err != nil {
 			return err
 		}
+		verifPoint("markFreed", db)
 		db.addFreeSpan(oldOffset, oldLength)
 	}
 
@@ -489,6 +492,7 @@ func (db *SpanFile) allocateSpan(size int) (uint64, int64, error) {
 	if err != nil {
 		return 0, 0, err
 	}
+	verifPoint("grow", db)
 
 	db.freeMap.markFree(currentLength+size, expandBy-size) // Use markFree from freeMap
 
